@@ -431,6 +431,26 @@ func safeStep(w *world, r request) (ok bool) {
 	return true
 }
 
+// setDim returns the list with dimension d set to v (dimensions stay ascending and unique)
+func setDim(l rl, d, v int64) rl {
+	out := rl{}
+	done := false
+	for _, kv := range l {
+		if kv[0] == d {
+			continue
+		}
+		if kv[0] > d && !done {
+			out = append(out, [2]int64{d, v})
+			done = true
+		}
+		out = append(out, kv)
+	}
+	if !done {
+		out = append(out, [2]int64{d, v})
+	}
+	return out
+}
+
 type emitFn func(id string, sel int, in []int64, kind string, nontrivial bool, desc any)
 
 // run a prepared history once to describe it and decide non-triviality
@@ -462,7 +482,9 @@ func finish(h history, id, kind string, emit emitFn) {
 			}
 		}
 	}
-	emit(id, 1, h.enc(), kind, changed >= 3 && deep, map[string]any{"maxDepth": h.cfg.maxDepth, "requests": descs})
+	// a history whose initial set is deliberately not a tree is never counted as non-trivial: the laws
+	// that need the broken clause are gated off on it
+	emit(id, 1, h.enc(), kind, changed >= 3 && deep && h.cfg.notTree == 0, map[string]any{"maxDepth": h.cfg.maxDepth, "requests": descs})
 }
 
 func gen(rng *vh.Rng, n int, emit func(id string, sel int, in []int64, kind string, nontrivial bool, desc any)) {
@@ -471,26 +493,26 @@ func gen(rng *vh.Rng, n int, emit func(id string, sel int, in []int64, kind stri
 	mk := func(name, parent int64) request { return request{kCreate, qspec{name: name, parent: parent}} }
 	mv := func(name, parent int64) request { return request{kUpdate, qspec{name: name, parent: parent}} }
 	// F3: root <- a <- b <- c, then a.parent := c
-	finish(history{config{5, 0, 0}, []qspec{root, def}, []request{mk(3, 1), mk(4, 3), mk(5, 4), mv(3, 5), mv(3, 4), mv(3, 3)}},
+	finish(history{config{5, 0, 0, 0}, []qspec{root, def}, []request{mk(3, 1), mk(4, 3), mk(5, 4), mv(3, 5), mv(3, 4), mv(3, 3)}},
 		"fixed-cycle", "fixed/reparent-under-descendant", emit)
 	// depth of a moved subtree: max 3; a<-b<-c and x<-y; a.parent := y puts c at depth 5
-	finish(history{config{3, 0, 0}, []qspec{root, def}, []request{mk(3, 0), mk(4, 3), mk(5, 4), mk(6, 1), mk(7, 6), mv(3, 7), mv(3, 6), mv(4, 6), mv(5, 7)}},
+	finish(history{config{3, 0, 0, 0}, []qspec{root, def}, []request{mk(3, 0), mk(4, 3), mk(5, 4), mk(6, 1), mk(7, 6), mv(3, 7), mv(3, 6), mv(4, 6), mv(5, 7)}},
 		"fixed-subtree-depth", "fixed/reparent-subtree-depth", emit)
 	// capability of a moved subtree: a(cap cpu 100) <- q <- d(cap cpu 50); p(cap cpu 10); q.parent := p
 	cpu := func(v int64) rl { return rl{{2, v}} }
-	finish(history{config{5, 0, 0}, []qspec{root, def}, []request{
+	finish(history{config{5, 0, 0, 0}, []qspec{root, def}, []request{
 		{kCreate, qspec{name: 3, parent: 1, cap: cpu(100000)}}, mk(4, 3),
 		{kCreate, qspec{name: 5, parent: 4, cap: cpu(50000)}},
 		{kCreate, qspec{name: 6, parent: 1, cap: cpu(10000)}}, mv(4, 6)}},
 		"fixed-subtree-capability", "fixed/reparent-subtree-capability", emit)
 	// the same two levels down: a(100) <- q <- m <- d(50); p(10); q.parent := p
-	finish(history{config{5, 0, 0}, []qspec{root, def}, []request{
+	finish(history{config{5, 0, 0, 0}, []qspec{root, def}, []request{
 		{kCreate, qspec{name: 3, parent: 1, cap: cpu(100000)}}, mk(4, 3), mk(7, 4),
 		{kCreate, qspec{name: 5, parent: 7, cap: cpu(50000)}},
 		{kCreate, qspec{name: 6, parent: 1, cap: cpu(10000)}}, mv(4, 6), mv(7, 6), mv(5, 6)}},
 		"fixed-subtree-capability-deep", "fixed/reparent-subtree-capability", emit)
 	// the bound is per dimension: q (nothing) <- c (cpu only) <- g (memory 64000); p (memory 32000); q.parent := p
-	finish(history{config{5, 0, 0}, []qspec{root, def}, []request{
+	finish(history{config{5, 0, 0, 0}, []qspec{root, def}, []request{
 		mk(3, 1), {kCreate, qspec{name: 4, parent: 3, cap: cpu(4000)}},
 		{kCreate, qspec{name: 5, parent: 4, cap: rl{{3, 64000}}}},
 		{kCreate, qspec{name: 6, parent: 1, cap: rl{{3, 32000}}}}, mv(3, 6),
@@ -503,7 +525,7 @@ func gen(rng *vh.Rng, n int, emit func(id string, sel int, in []int64, kind stri
 		return qspec{name: id, parent: parent, des: rl{{2, v}}, guar: rl{{2, v}}}
 	}
 	st := func(id, state int64) request { return request{kEnv, qspec{name: id, alloc: -1, state: state}} }
-	finish(history{config{5, 0, 0}, []qspec{root, def}, []request{
+	finish(history{config{5, 0, 0, 0}, []qspec{root, def}, []request{
 		{kCreate, ten(3, 1, 10000)}, {kCreate, ten(4, 3, 6000)}, st(4, 2),
 		{kCreate, ten(5, 3, 6000)}, {kCreate, ten(5, 1, 6000)}, {kUpdate, ten(5, 3, 6000)},
 		{kUpdate, ten(5, 3, 4000)}, {kUpdate, ten(5, 3, 5000)}, st(4, 3), {kUpdate, ten(4, 3, 5000)}, st(4, 1),
@@ -511,25 +533,68 @@ func gen(rng *vh.Rng, n int, emit func(id string, sel int, in []int64, kind stri
 		"fixed-closed-sibling", "fixed/closed-sibling-sum", emit)
 	// deletion of a queue with allocated pods: admitted with the default flag (known finding), refused with the flag on
 	alloc := func(id, n int64) request { return request{kEnv, qspec{name: id, alloc: n, state: -1}} }
-	finish(history{config{5, 0, 1}, []qspec{root, def}, []request{mk(3, 1), alloc(3, 3), {kDelete, qspec{name: 3}}}},
+	finish(history{config{5, 0, 1, 0}, []qspec{root, def}, []request{mk(3, 1), alloc(3, 3), {kDelete, qspec{name: 3}}}},
 		"fixed-delete-allocated-flag-off", "fixed/delete-allocated-pods", emit)
-	finish(history{config{5, 1, 1}, []qspec{root, def}, []request{mk(3, 1), alloc(3, 3), {kDelete, qspec{name: 3}}, alloc(3, 0), {kDelete, qspec{name: 3}}}},
+	finish(history{config{5, 1, 1, 0}, []qspec{root, def}, []request{mk(3, 1), alloc(3, 3), {kDelete, qspec{name: 3}}, alloc(3, 0), {kDelete, qspec{name: 3}}}},
 		"fixed-delete-allocated-flag-on", "fixed/delete-allocated-pods", emit)
 	// root is carved out of the sums and of the capability bound by the code: explicit amounts on root are
 	// exceeded by top-level queues, and (root protection off) lowered below them
 	k1 := qspec{name: 1, cap: cpu(1000), des: cpu(1000), guar: cpu(1000)}
-	finish(history{config{5, 0, 0}, []qspec{k1, def}, []request{
+	finish(history{config{5, 0, 0, 0}, []qspec{k1, def}, []request{
 		{kCreate, qspec{name: 3, parent: 1, cap: cpu(5000), des: cpu(5000), guar: cpu(5000)}},
 		{kCreate, qspec{name: 4, parent: 0, cap: cpu(5000), des: cpu(5000), guar: cpu(5000)}},
 		{kUpdate, qspec{name: 1, cap: cpu(500), des: cpu(500), guar: cpu(500)}}}},
 		"fixed-root-carve-out", "fixed/root-carve-out", emit)
 	// the root queue itself given a parent
-	finish(history{config{5, 0, 1}, []qspec{root, def}, []request{mk(3, 1), mk(4, 3), mv(1, 4), mv(1, 1), mk(5, 4), mv(3, 5)}},
+	finish(history{config{5, 0, 1, 0}, []qspec{root, def}, []request{mk(3, 1), mk(4, 3), mv(1, 4), mv(1, 1), mk(5, 4), mv(3, 5)}},
 		"fixed-root-reparent", "fixed/root-given-a-parent", emit)
+
+	// concurrent admissions: serialised admission is an ASSUMPTION of C10 (docs/notes/C10.md); the three
+	// scenarios of C10_concurrent_*_refuted on the real webhook: both requests are admitted against the same
+	// set, afterwards the set is not a tree (sel 3), and the resulting sets are compared (sel 2)
+	plain := []request{mk(3, 1), mk(4, 1), {kCreate, ten(7, 1, 10000)}}
+	pairs := [][2]request{
+		{mv(3, 4), mv(4, 3)}, // cycle
+		{{kCreate, ten(5, 7, 6000)}, {kCreate, ten(6, 7, 6000)}}, // 12000 under 10000
+		{{kDelete, qspec{name: 4}}, mk(5, 4)},                    // dangling parent
+	}
+	for k, p := range pairs {
+		in := history{config{5, 0, 0, 0}, []qspec{root, def}, plain}.enc()
+		in = append(in, p[0].enc()...)
+		in = append(in, p[1].enc()...)
+		d := map[string]any{"after": "CREATE q3, q4 under root; q7 under root with cpu 10000", "first": describe(p[0], -1), "second": describe(p[1], -1)}
+		emit(fmt.Sprintf("fixed-concurrent-%d", k), 3, in, "concurrent-pair/fixed", true, d)
+		emit(fmt.Sprintf("fixed-concurrent-%d-result", k), 2, in, "concurrent-pair/fixed", true, d)
+	}
 
 	for i := 0; i < n; i++ {
 		r := rng.Fork()
 		g := &gctx{r: r}
+		if r.Chance(1, 25) {
+			// a random history, then two random requests validated against the same set
+			pcfg := config{5, int64(r.Intn(2)), int64(r.Intn(2)), 0}
+			pq0 := baseQ0(r)
+			g.w = newWorld(pcfg, pq0)
+			h := history{cfg: pcfg, q0: pq0}
+			var last int64
+			for k := r.Range(3, 15); k > 0; k-- {
+				g.clean = k > 3
+				req := g.nextRequest(&last)
+				h.reqs = append(h.reqs, req)
+				if !safeStep(g.w, req) || g.w.poisoned {
+					break
+				}
+			}
+			if !g.w.poisoned {
+				g.clean = false
+				p1, p2 := g.nextRequest(&last), g.nextRequest(&last)
+				if p1.kind != kEnv && p2.kind != kEnv {
+					in := append(append(h.enc(), p1.enc()...), p2.enc()...)
+					emit(fmt.Sprintf("pair-%d", i), 2, in, "concurrent-pair/random", len(h.reqs) >= 3, map[string]any{"first": describe(p1, -1), "second": describe(p2, -1)})
+				}
+			}
+			continue
+		}
 		if r.Chance(1, 6) {
 			finish(g.directedMove(), fmt.Sprintf("hist-%d", i), "history/directed-subtree-move", emit)
 			continue
@@ -542,32 +607,41 @@ func gen(rng *vh.Rng, n int, emit func(id string, sel int, in []int64, kind stri
 		kind := "history/from-root"
 		q0 := baseQ0(r)
 		if r.Chance(1, 8) {
-			// arbitrary (acyclic, possibly dangling / inconsistent) initial queue set
-			kind = "history/arbitrary-initial-set"
-			m := r.Range(2, 7)
-			for k := 0; k < m; k++ {
-				id := int64(3 + k)
-				q := qspec{name: id, alloc: int64(r.Intn(3) / 2 * 2), state: int64(vh.Pick(r, []int{0, 1, 1, 2, 3, 4}))}
-				switch x := r.Intn(10); {
-				case x < 2:
-					q.parent = int64(r.Intn(2))
-				case x < 3:
-					q.parent = int64(r.Range(20, 22)) // dangling
+			// a larger initial queue set: a random TREE (built by a warm-up of admissible CREATEs through
+			// the real webhook, so it satisfies the invariant the laws are gated on), with random
+			// status; 1 in 5 is then perturbed (dangling parent / guarantee above deserved / a child's
+			// deserved above what the parent has left / a capability above the ancestor's): on those the
+			// gates of the laws that need the broken clause are false and only the verdicts are compared
+			kind = "history/initial-tree"
+			wg := &gctx{r: r, clean: true, bare: vh.Pick(r, []int{0, 1, 3})}
+			wg.w = newWorld(cfg, q0)
+			var wl int64
+			for k := r.Range(4, 12); k > 0; k-- {
+				req := wg.nextRequest(&wl)
+				if req.kind == kCreate && !safeStep(wg.w, req) {
+					break
+				}
+			}
+			q0 = wg.w.queues()
+			for i := range q0 {
+				q0[i].alloc = int64(r.Intn(3) / 2 * 2)
+				q0[i].state = int64(vh.Pick(r, []int{0, 1, 1, 1, 2, 3, 4}))
+			}
+			if r.Chance(1, 5) && len(q0) > 2 {
+				kind = "history/initial-perturbed"
+				cfg.notTree = 1
+				i := r.Range(2, len(q0)-1)
+				switch r.Intn(4) {
+				case 0:
+					q0[i].parent = int64(r.Range(20, 22)) // dangling
+				case 1:
+					q0[i].guar = setDim(q0[i].guar, 2, 9000)
+					q0[i].des = setDim(q0[i].des, 2, 1000)
+				case 2:
+					q0[i].des = setDim(q0[i].des, 2, 900000)
 				default:
-					q.parent = int64(r.Range(1, int(id)-1))
+					q0[i].cap = setDim(q0[i].cap, 4, 900000)
 				}
-				for _, d := range []int64{2, 3, 4} {
-					if r.Chance(1, 2) {
-						q.cap = append(q.cap, [2]int64{d, int64(r.Intn(9)) * 1000})
-					}
-					if r.Chance(1, 2) {
-						q.des = append(q.des, [2]int64{d, int64(r.Intn(9)) * 1000})
-					}
-					if r.Chance(1, 3) {
-						q.guar = append(q.guar, [2]int64{d, int64(r.Intn(5)) * 1000})
-					}
-				}
-				q0 = append(q0, q)
 			}
 		}
 		if kind == "history/from-root" && r.Chance(1, 4) {
